@@ -9,6 +9,7 @@ from __future__ import annotations
 import itertools
 
 from rt import fuzz, gen, impl
+from rt.foundry import ForeignFailed, foreign
 from rt.jsonval import canon, h
 from rt.render import Renderer
 
@@ -88,6 +89,22 @@ def check_text(ctx, text, docs, cls, must_compile):
     if s2 != s:
         ctx.violation("string-form-not-a-fixed-point:%s" % cls, case, {"text": text, "str": s, "str2": s2})
         return
+    if cls == "directed" or ctx.rng.random() < 0.15:
+        # the same text compiled in another interpreter (other hash seed, fresh module state) and carried here by pickle
+        try:
+            fp = foreign("compile", text)
+        except ForeignFailed:
+            ctx.count("other_interpreter_could_not_deliver")
+        else:
+            ctx.count("queries_compiled_in_another_interpreter")
+            fs = impl.call(str, fp)
+            if not fs.ok or fs.value != s:
+                ctx.violation("string-form-differs-for-the-query-compiled-in-another-interpreter", case, {"text": text, "str_here": s, "str_there": fs.value if fs.ok else fs.desc()})
+                return
+            for doc in docs[:3]:
+                if results(fp, doc) != results(p, doc):
+                    ctx.violation("query-compiled-in-another-interpreter-evaluates-differently", case, {"text": text, "doc": canon(doc)[:300]})
+                    return
     ctx.remember("string-form", lambda: digest(text, docs))
     for cname in {type(x).__name__ for x in _walk(p)}:
         ctx.cell("node_classes_serialised", cname)
